@@ -1,17 +1,1170 @@
 package exec
 
-import "vsym/sym"
+import (
+	"bytes"
+	"encoding/json"
+	"fmt"
+	"go/types"
+	"io"
+	"reflect"
+	"sort"
+	"strconv"
+	"strings"
+	"time"
 
-// JNode is an abstract JSON document (see DESIGN.md §2.7). Filled in by json_model.go.
+	"golang.org/x/tools/go/ssa"
+
+	"vsym/sym"
+)
+
+// Abstract JSON documents (DESIGN.md §2.7). encoding/json is modelled at the level of its
+// documented contract: a []byte produced by json.Marshal or supplied by a harness as a payload
+// is a tree whose leaves may be symbolic.
+
+type JKind int
+
+const (
+	JNull JKind = iota
+	JBool
+	JNumText // number given by its literal text (symbolic bytes; harness guarantees the grammar)
+	JNumVal  // number given by its integer value (from marshaling a Go integer)
+	JString
+	JArray
+	JObject
+	JInvalid // bytes that are not JSON
+)
+
+const (
+	flPlain = iota
+	flTime
+	flBytes
+)
+
 type JNode struct {
-	Kind int
+	Kind   JKind
+	B      *sym.Term // JBool
+	Text   Str       // JNumText (also floats rendered concretely)
+	Val    *sym.Term // JNumVal
+	Signed bool
+	S      Str   // JString plain
+	Flavor int   // JString: plain / time / bytes
+	Time   Value // Struct of time.Time
+	Bytes  Slice
+	Elems  []*JNode
+	Keys   []Str
+	Vals   []*JNode
+	FromMap bool // object built from a Go map (keys are sorted by encoding/json)
 }
 
-func jsonTextEqualsLiteral(n *JNode, lit string) (bool, bool) { return false, false }
-func (in *Interp) jsonTextToString(n *JNode) Value             { in.unsupported("json"); return nil }
-func (in *Interp) jsonTextLen(n *JNode) int                     { in.unsupported("json"); return 0 }
-func (in *Interp) jsonParseNumber(n *JNode, bits int, signed bool) Value {
-	in.unsupported("json")
+// JNumBox is the value stored in an interface{} for a decoded JSON number (encoding/json
+// would store a float64; the library never computes with it).
+type JNumBox struct{ N *JNode }
+
+func jstr(s string) *JNode { return &JNode{Kind: JString, S: Str{S: s}} }
+
+// ---------- rendering ----------
+
+// jsonRender returns the exact compact text of n when it can be determined with a concrete
+// length (all leaves concrete, or symbolic leaves whose rendering has a fixed length).
+func (in *Interp) jsonRender(n *JNode) ([]*sym.Term, bool) {
+	c := in.Ctx
+	lit := func(s string) []*sym.Term {
+		out := make([]*sym.Term, len(s))
+		for i := range out {
+			out[i] = c.BV(8, uint64(s[i]))
+		}
+		return out
+	}
+	switch n.Kind {
+	case JNull:
+		return lit("null"), true
+	case JBool:
+		if n.B.IsConst() {
+			if n.B.Val == 1 {
+				return lit("true"), true
+			}
+			return lit("false"), true
+		}
+		return nil, false
+	case JNumText:
+		if n.Text.Opq != nil {
+			return nil, false
+		}
+		return in.strBytes(n.Text), true
+	case JNumVal:
+		if n.Val.IsConst() {
+			if n.Signed {
+				return lit(strconv.FormatInt(n.Val.Int(), 10)), true
+			}
+			return lit(strconv.FormatUint(n.Val.Val, 10)), true
+		}
+		return nil, false
+	case JString:
+		if n.Flavor == flPlain && n.S.IsConc() {
+			b, _ := json.Marshal(n.S.S)
+			return lit(string(b)), true
+		}
+		return nil, false
+	case JArray:
+		out := lit("[")
+		for i, e := range n.Elems {
+			if i > 0 {
+				out = append(out, lit(",")...)
+			}
+			r, ok := in.jsonRender(e)
+			if !ok {
+				return nil, false
+			}
+			out = append(out, r...)
+		}
+		return append(out, lit("]")...), true
+	case JObject:
+		if n.FromMap {
+			// key order depends on sorting symbolic keys: render only if keys are concrete
+			for _, k := range n.Keys {
+				if !k.IsConc() {
+					return nil, false
+				}
+			}
+		}
+		idx := make([]int, len(n.Keys))
+		for i := range idx {
+			idx[i] = i
+		}
+		if n.FromMap {
+			sort.SliceStable(idx, func(a, b int) bool { return n.Keys[idx[a]].S < n.Keys[idx[b]].S })
+		}
+		out := lit("{")
+		for j, i := range idx {
+			if j > 0 {
+				out = append(out, lit(",")...)
+			}
+			if !n.Keys[i].IsConc() {
+				return nil, false
+			}
+			kb, _ := json.Marshal(n.Keys[i].S)
+			out = append(out, lit(string(kb))...)
+			out = append(out, lit(":")...)
+			r, ok := in.jsonRender(n.Vals[i])
+			if !ok {
+				return nil, false
+			}
+			out = append(out, r...)
+		}
+		return append(out, lit("}")...), true
+	}
+	return nil, false
+}
+
+func (in *Interp) jsonTextToString(n *JNode) Value {
+	if n.Kind == JInvalid {
+		return Str{Opq: &Opaque{What: "text that is not JSON", JSON: n}}
+	}
+	if b, ok := in.jsonRender(n); ok {
+		return in.mkStr(b)
+	}
+	return Str{Opq: &Opaque{What: "JSON text", JSON: n, NotNilWord: true}}
+}
+
+// jsonTextLen: only emptiness is observable to the library (it allocates with it); the
+// rendered length is used when available, otherwise a positive estimate.
+func (in *Interp) jsonTextLen(n *JNode) int {
+	if b, ok := in.jsonRender(n); ok {
+		return len(b)
+	}
+	switch n.Kind {
+	case JString:
+		if n.Flavor == flPlain && n.S.Opq == nil {
+			return n.S.Len() + 2
+		}
+		return 16
+	}
+	return 8
+}
+
+// jsonFirstByte returns the first byte of the text of n.
+func (in *Interp) jsonFirstByte(n *JNode) *sym.Term {
+	c := in.Ctx
+	switch n.Kind {
+	case JNull:
+		return c.BV(8, 'n')
+	case JBool:
+		return c.Ite(n.B, c.BV(8, 't'), c.BV(8, 'f'))
+	case JNumText:
+		return in.strAt(n.Text, 0)
+	case JNumVal:
+		if n.Val.IsConst() {
+			b, _ := in.jsonRender(n)
+			return b[0]
+		}
+		neg := c.F
+		if n.Signed {
+			neg = c.Cmp(sym.OpSlt, n.Val, c.BV(n.Val.W, 0))
+		}
+		in.mapSeq++
+		d := c.Var(fmt.Sprintf("json.digit%d", in.mapSeq), 8)
+		in.Path.Assume(c.And(c.Cmp(sym.OpUle, c.BV(8, '0'), d), c.Cmp(sym.OpUle, d, c.BV(8, '9'))))
+		return c.Ite(neg, c.BV(8, '-'), d)
+	case JString:
+		return c.BV(8, '"')
+	case JArray:
+		return c.BV(8, '[')
+	case JObject:
+		return c.BV(8, '{')
+	}
+	in.unsupported("first byte of non-JSON text")
 	return nil
 }
-func (in *Interp) jsonEqual(a, b *JNode) *sym.Term { in.unsupported("json"); return nil }
+
+// jsonTextEqualsLiteral decides text(n) == lit for texts that cannot be rendered.
+func jsonTextEqualsLiteral(n *JNode, lit string) (bool, bool) {
+	if lit == "" {
+		return false, true
+	}
+	switch n.Kind {
+	case JNumVal:
+		if lit[0] != '-' && (lit[0] < '0' || lit[0] > '9') {
+			return false, true
+		}
+	case JString:
+		if lit[0] != '"' {
+			return false, true
+		}
+	case JArray:
+		if lit[0] != '[' {
+			return false, true
+		}
+	case JObject:
+		if lit[0] != '{' {
+			return false, true
+		}
+	case JInvalid:
+		return false, false
+	}
+	return false, false
+}
+
+// jsonTextEqTerm handles the symbolic-boolean leaf.
+func (in *Interp) jsonTextEqTerm(n *JNode, lit string) (*sym.Term, bool) {
+	if n.Kind == JBool {
+		switch lit {
+		case "true":
+			return n.B, true
+		case "false":
+			return in.Ctx.Not(n.B), true
+		}
+		return in.Ctx.F, true
+	}
+	if r, ok := jsonTextEqualsLiteral(n, lit); ok {
+		return in.Ctx.Bool(r), true
+	}
+	return nil, false
+}
+
+// jsonParseNumber is the documented contract of strconv.Atoi/ParseInt/ParseUint applied to
+// the text of a JSON leaf that is not rendered byte by byte.
+func (in *Interp) jsonParseNumber(n *JNode, bits int, signed bool) Value {
+	c := in.Ctx
+	in.noteModel("strconv.Atoi/ParseInt/ParseUint on a marshaled integer (contract: decimal rendering and parsing are inverse)")
+	if bits == 0 {
+		bits = 64
+	}
+	synErr := func() Value { return Tuple{c.BV(64, 0), in.newError(Str{S: "strconv: invalid syntax"})} }
+	if n.Kind != JNumVal {
+		return synErr()
+	}
+	v := n.Val
+	// the mathematical value as a 65-bit two's complement number would be ideal; split cases
+	if signed {
+		// target: signed integer of `bits` bits
+		var v64 *sym.Term
+		var tooBig *sym.Term
+		if n.Signed {
+			v64 = c.SExt(v, 64)
+			tooBig = c.F
+		} else {
+			v64 = c.ZExt(v, 64)
+			tooBig = c.F
+			if v.W == 64 {
+				tooBig = c.Cmp(sym.OpSlt, v64, c.BV(64, 0)) // >= 2^63
+			}
+		}
+		maxv := uint64(1)<<uint(bits-1) - 1
+		minv := -int64(1) << uint(bits-1)
+		hi := c.Or(tooBig, c.Cmp(sym.OpSlt, c.BV(64, maxv), v64))
+		lo := c.And(c.Not(tooBig), c.Cmp(sym.OpSlt, v64, c.BV(64, uint64(minv))))
+		if in.Path.Branch(hi) {
+			return Tuple{c.BV(64, maxv), in.newError(Str{S: "strconv: value out of range"})}
+		}
+		if in.Path.Branch(lo) {
+			return Tuple{c.BV(64, uint64(minv)), in.newError(Str{S: "strconv: value out of range"})}
+		}
+		return Tuple{v64, Iface{}}
+	}
+	// unsigned target
+	if n.Signed {
+		if in.Path.Branch(c.Cmp(sym.OpSlt, v, c.BV(v.W, 0))) {
+			return synErr() // leading '-'
+		}
+	}
+	v64 := c.ZExt(v, 64)
+	if n.Signed {
+		v64 = c.SExt(v, 64)
+	}
+	if bits < 64 {
+		maxv := uint64(1)<<uint(bits) - 1
+		if in.Path.Branch(c.Cmp(sym.OpUlt, c.BV(64, maxv), v64)) {
+			return Tuple{c.BV(64, maxv), in.newError(Str{S: "strconv: value out of range"})}
+		}
+	}
+	return Tuple{v64, Iface{}}
+}
+
+// ---------- equality of documents ----------
+
+func (in *Interp) jsonEqual(a, b *JNode) *sym.Term {
+	c := in.Ctx
+	if a == b {
+		return c.T
+	}
+	if a.Kind == JNumText || b.Kind == JNumText || a.Kind == JNumVal || b.Kind == JNumVal {
+		if a.Kind == JNumVal && b.Kind == JNumVal {
+			// compare as mathematical integers
+			ax, bx := in.numTo65(a), in.numTo65(b)
+			return c.Eq(ax, bx)
+		}
+		if a.Kind == JNumText && b.Kind == JNumText {
+			return in.strEq(a.Text, b.Text)
+		}
+		if (a.Kind == JNumText || a.Kind == JNumVal) && (b.Kind == JNumText || b.Kind == JNumVal) {
+			in.unsupported("comparison of a JSON number literal with a marshaled integer")
+		}
+		return c.F
+	}
+	if a.Kind != b.Kind {
+		return c.F
+	}
+	switch a.Kind {
+	case JNull:
+		return c.T
+	case JBool:
+		return c.Eq(a.B, b.B)
+	case JString:
+		if a.Flavor != b.Flavor {
+			in.unsupported("comparison of JSON strings of different flavors")
+		}
+		switch a.Flavor {
+		case flTime:
+			as, bs := a.Time.(Struct), b.Time.(Struct)
+			return c.And(c.Eq(term(as[0]), term(bs[0])), c.Eq(term(as[1]), term(bs[1])))
+		case flBytes:
+			return in.strEq(in.bytesAsStr(a.Bytes), in.bytesAsStr(b.Bytes))
+		}
+		return in.strEq(a.S, b.S)
+	case JArray:
+		if len(a.Elems) != len(b.Elems) {
+			return c.F
+		}
+		r := c.T
+		for i := range a.Elems {
+			r = c.And(r, in.jsonEqual(a.Elems[i], b.Elems[i]))
+		}
+		return r
+	case JObject:
+		if len(a.Keys) != len(b.Keys) {
+			return c.F
+		}
+		r := c.T
+		for i := range a.Keys {
+			any := c.F
+			for j := range b.Keys {
+				k := in.strEq(a.Keys[i], b.Keys[j])
+				if k.IsFalse() {
+					continue
+				}
+				any = c.Or(any, c.And(k, in.jsonEqual(a.Vals[i], b.Vals[j])))
+			}
+			r = c.And(r, any)
+		}
+		return r
+	}
+	return c.F
+}
+
+// numTo65 widens an integer leaf to a 64-bit term plus handles sign by mapping to a
+// canonical 64-bit pattern pair; here: compare via (isNegative, magnitude bits).
+func (in *Interp) numTo65(n *JNode) *sym.Term {
+	c := in.Ctx
+	// encode as 64-bit two's complement of the value if it fits int64, else (unsigned >= 2^63)
+	// offset by a flag in a separate comparison; to stay simple, map to a 64-bit term of
+	// (value mod 2^64) and require equal signedness class for huge unsigned values.
+	if n.Signed {
+		return c.SExt(n.Val, 64)
+	}
+	return c.ZExt(n.Val, 64)
+}
+
+// ---------- concrete bytes -> tree ----------
+
+func parseConcreteJSON(data []byte) *JNode {
+	if !json.Valid(data) {
+		return &JNode{Kind: JInvalid}
+	}
+	dec := json.NewDecoder(bytes.NewReader(data))
+	dec.UseNumber()
+	n, err := parseTok(dec)
+	if err != nil {
+		return &JNode{Kind: JInvalid}
+	}
+	return n
+}
+
+func parseTok(dec *json.Decoder) (*JNode, error) {
+	tok, err := dec.Token()
+	if err != nil {
+		return nil, err
+	}
+	switch t := tok.(type) {
+	case json.Delim:
+		switch t {
+		case '[':
+			n := &JNode{Kind: JArray}
+			for dec.More() {
+				e, err := parseTok(dec)
+				if err != nil {
+					return nil, err
+				}
+				n.Elems = append(n.Elems, e)
+			}
+			_, err := dec.Token()
+			return n, err
+		case '{':
+			n := &JNode{Kind: JObject}
+			for dec.More() {
+				kt, err := dec.Token()
+				if err != nil {
+					return nil, err
+				}
+				ks, ok := kt.(string)
+				if !ok {
+					return nil, io.ErrUnexpectedEOF
+				}
+				v, err := parseTok(dec)
+				if err != nil {
+					return nil, err
+				}
+				n.Keys = append(n.Keys, Str{S: ks})
+				n.Vals = append(n.Vals, v)
+			}
+			_, err := dec.Token()
+			return n, err
+		}
+		return nil, io.ErrUnexpectedEOF
+	case nil:
+		return &JNode{Kind: JNull}, nil
+	case bool:
+		return &JNode{Kind: JBool, B: nil, Text: Str{S: fmt.Sprint(t)}}, nil
+	case json.Number:
+		return &JNode{Kind: JNumText, Text: Str{S: string(t)}}, nil
+	case string:
+		return jstr(t), nil
+	}
+	return nil, io.ErrUnexpectedEOF
+}
+
+// fixBools fills the B terms of concrete booleans (parseTok has no Ctx).
+func (in *Interp) fixBools(n *JNode) *JNode {
+	switch n.Kind {
+	case JBool:
+		if n.B == nil {
+			n.B = in.Ctx.Bool(n.Text.S == "true")
+		}
+	case JArray:
+		for _, e := range n.Elems {
+			in.fixBools(e)
+		}
+	case JObject:
+		for _, e := range n.Vals {
+			in.fixBools(e)
+		}
+	}
+	return n
+}
+
+// jsonOfBytes interprets a []byte value as a JSON document.
+func (in *Interp) jsonOfBytes(s Slice) *JNode {
+	if s.JSON != nil {
+		return s.JSON
+	}
+	bs := make([]*sym.Term, s.Len)
+	conc := true
+	for i := 0; i < s.Len; i++ {
+		bs[i] = term(s.Back[i])
+		if !bs[i].IsConst() {
+			conc = false
+		}
+	}
+	if conc {
+		raw := make([]byte, len(bs))
+		for i, t := range bs {
+			raw[i] = byte(t.Val)
+		}
+		return in.fixBools(parseConcreteJSON(raw))
+	}
+	return in.parseSymbolicJSON(bs)
+}
+
+// parseSymbolicJSON handles the one shape the library builds from symbolic bytes itself:
+// a string literal `"` + bytes + `"` (filter labels). The JSON string grammar is followed
+// byte by byte; each symbolic byte is classified by a decision.
+func (in *Interp) parseSymbolicJSON(bs []*sym.Term) *JNode {
+	c := in.Ctx
+	in.noteModel("JSON string-literal scanner over symbolic bytes (filter label)")
+	n := len(bs)
+	if n < 2 || !bs[0].IsConst() || bs[0].Val != '"' {
+		in.unsupported("json.Unmarshal of symbolic bytes that are not a string literal")
+	}
+	var out []*sym.Term
+	i := 1
+	for i < n {
+		b := bs[i]
+		isQuote := c.Eq(b, c.BV(8, '"'))
+		if in.Path.Branch(isQuote) {
+			if i == n-1 {
+				return &JNode{Kind: JString, S: in.mkStr(out)}
+			}
+			return &JNode{Kind: JInvalid} // trailing data after the closing quote
+		}
+		if in.Path.Branch(c.Cmp(sym.OpUlt, b, c.BV(8, 0x20))) {
+			return &JNode{Kind: JInvalid} // control character
+		}
+		if in.Path.Branch(c.Eq(b, c.BV(8, '\\'))) {
+			// escapes: handle the single-character ones; \u needs 4 hex digits
+			if i+1 >= n {
+				return &JNode{Kind: JInvalid}
+			}
+			e := bs[i+1]
+			type esc struct {
+				ch, val byte
+			}
+			handled := false
+			for _, es := range []esc{{'"', '"'}, {'\\', '\\'}, {'/', '/'}, {'b', 8}, {'f', 12}, {'n', 10}, {'r', 13}, {'t', 9}} {
+				if in.Path.Branch(c.Eq(e, c.BV(8, uint64(es.ch)))) {
+					out = append(out, c.BV(8, uint64(es.val)))
+					handled = true
+					break
+				}
+			}
+			if !handled {
+				if in.Path.Branch(c.Eq(e, c.BV(8, 'u'))) {
+					in.unsupported("\\u escape in symbolic JSON string")
+				}
+				return &JNode{Kind: JInvalid}
+			}
+			i += 2
+			continue
+		}
+		if in.Path.Branch(c.Cmp(sym.OpUle, c.BV(8, 0x80), b)) {
+			// non-ASCII: valid UTF-8 passes through, invalid is replaced by U+FFFD; outside the
+			// stated bound (ASCII)
+			in.unsupported("non-ASCII byte in symbolic JSON string (outside the stated bound)")
+		}
+		out = append(out, b)
+		i++
+	}
+	return &JNode{Kind: JInvalid} // unterminated
+}
+
+// ---------- json.Marshal ----------
+
+type jsonErr struct{ msg string }
+
+func (in *Interp) jsonMarshal(t types.Type, v Value) (n *JNode, err *jsonErr) {
+	c := in.Ctx
+	// Marshaler interface (value or pointer receiver when addressable is not modelled:
+	// value receivers only, which is what the library declares)
+	if _, isIface := t.Underlying().(*types.Interface); !isIface {
+		if isNamed(t, "encoding/json", "RawMessage") {
+			s := v.(Slice)
+			if s.JSON != nil {
+				return s.JSON, nil
+			}
+			if s.Back == nil {
+				return &JNode{Kind: JNull}, nil
+			}
+			nd := in.jsonOfBytes(s)
+			if nd.Kind == JInvalid {
+				return nil, &jsonErr{"json: error calling MarshalJSON for type json.RawMessage"}
+			}
+			return nd, nil
+		}
+		if isNamed(t, "time", "Time") {
+			return &JNode{Kind: JString, Flavor: flTime, Time: copyVal(v)}, nil
+		}
+		if p, ok := t.Underlying().(*types.Pointer); ok {
+			if pv := v.(*Value); pv == nil {
+				return &JNode{Kind: JNull}, nil
+			} else if ms := in.P.Prog.MethodSets.MethodSet(t); ms.Lookup(nil, "MarshalJSON") == nil || isNamed(p.Elem(), "time", "Time") || isNamed(p.Elem(), "encoding/json", "RawMessage") {
+				return in.jsonMarshal(p.Elem(), in.load(pv))
+			}
+		}
+		ms := in.P.Prog.MethodSets.MethodSet(t)
+		if sel := ms.Lookup(nil, "MarshalJSON"); sel != nil {
+			f := in.P.Prog.MethodValue(sel)
+			r := in.callFn(nil, f, nil, []Value{v}, nil).(Tuple)
+			if e := r[1].(Iface); e.T != nil {
+				return nil, &jsonErr{"json: error calling MarshalJSON"}
+			}
+			nd := in.jsonOfBytes(r[0].(Slice))
+			if nd.Kind == JInvalid {
+				return nil, &jsonErr{"json: MarshalJSON returned invalid JSON"}
+			}
+			return nd, nil
+		}
+	}
+	switch tt := t.Underlying().(type) {
+	case *types.Interface:
+		iv := v.(Iface)
+		if iv.T == nil {
+			return &JNode{Kind: JNull}, nil
+		}
+		if nb, ok := iv.V.(JNumBox); ok {
+			return nb.N, nil
+		}
+		return in.jsonMarshal(iv.T, iv.V)
+	case *types.Basic:
+		if w, signed, ok := intInfo(tt); ok {
+			if w == 0 {
+				return &JNode{Kind: JBool, B: term(v)}, nil
+			}
+			return &JNode{Kind: JNumVal, Val: term(v), Signed: signed}, nil
+		}
+		if isString(tt) {
+			return &JNode{Kind: JString, S: v.(Str)}, nil
+		}
+		if isFloat(tt) {
+			b, e := json.Marshal(v.(float64))
+			if e != nil {
+				return nil, &jsonErr{e.Error()}
+			}
+			return &JNode{Kind: JNumText, Text: Str{S: string(b)}}, nil
+		}
+	case *types.Pointer:
+		pv := v.(*Value)
+		if pv == nil {
+			return &JNode{Kind: JNull}, nil
+		}
+		return in.jsonMarshal(tt.Elem(), in.load(pv))
+	case *types.Slice:
+		s := v.(Slice)
+		if b, ok := tt.Elem().Underlying().(*types.Basic); ok && b.Kind() == types.Uint8 {
+			if s.JSON != nil {
+				in.unsupported("marshal of JSON text as a plain byte slice")
+			}
+			if s.Back == nil {
+				return &JNode{Kind: JNull}, nil
+			}
+			back := make([]Value, s.Len)
+			copy(back, s.Back[:s.Len])
+			return &JNode{Kind: JString, Flavor: flBytes, Bytes: Slice{Back: back, Len: s.Len}}, nil
+		}
+		if s.Back == nil {
+			return &JNode{Kind: JNull}, nil
+		}
+		n := &JNode{Kind: JArray}
+		for i := 0; i < s.Len; i++ {
+			e, err := in.jsonMarshal(tt.Elem(), s.Back[i])
+			if err != nil {
+				return nil, err
+			}
+			n.Elems = append(n.Elems, e)
+		}
+		return n, nil
+	case *types.Array:
+		a := v.(Array)
+		n := &JNode{Kind: JArray}
+		for i := range a {
+			e, err := in.jsonMarshal(tt.Elem(), a[i])
+			if err != nil {
+				return nil, err
+			}
+			n.Elems = append(n.Elems, e)
+		}
+		return n, nil
+	case *types.Map:
+		m := v.(*Map)
+		if m == nil {
+			return &JNode{Kind: JNull}, nil
+		}
+		if !isString(tt.Key()) {
+			in.unsupported("marshal of a map with non-string keys")
+		}
+		n := &JNode{Kind: JObject, FromMap: true}
+		for _, e := range m.Entries {
+			val, err := in.jsonMarshal(tt.Elem(), e.V)
+			if err != nil {
+				return nil, err
+			}
+			n.Keys = append(n.Keys, e.K.(Str))
+			n.Vals = append(n.Vals, val)
+		}
+		return n, nil
+	case *types.Struct:
+		sv := v.(Struct)
+		n := &JNode{Kind: JObject}
+		for i := 0; i < tt.NumFields(); i++ {
+			f := tt.Field(i)
+			if !f.Exported() {
+				continue
+			}
+			name, omitEmpty, skip := jsonFieldName(f, tt.Tag(i))
+			if skip {
+				continue
+			}
+			if f.Embedded() {
+				in.unsupported("marshal of embedded struct field")
+			}
+			if omitEmpty && in.jsonIsEmpty(f.Type(), sv[i]) {
+				continue
+			}
+			val, err := in.jsonMarshal(f.Type(), sv[i])
+			if err != nil {
+				return nil, err
+			}
+			n.Keys = append(n.Keys, Str{S: name})
+			n.Vals = append(n.Vals, val)
+		}
+		return n, nil
+	case *types.Signature, *types.Chan:
+		return nil, &jsonErr{"json: unsupported type: " + typeString(t)}
+	}
+	_ = c
+	in.unsupported("json.Marshal of %s", t)
+	return nil, nil
+}
+
+func jsonFieldName(f *types.Var, tag string) (name string, omitEmpty, skip bool) {
+	jt := reflect.StructTag(tag).Get("json")
+	if jt == "-" {
+		return "", false, true
+	}
+	parts := strings.Split(jt, ",")
+	name = parts[0]
+	if name == "" {
+		name = f.Name()
+	}
+	for _, o := range parts[1:] {
+		if o == "omitempty" {
+			omitEmpty = true
+		}
+	}
+	return name, omitEmpty, false
+}
+
+func (in *Interp) jsonIsEmpty(t types.Type, v Value) bool {
+	switch x := v.(type) {
+	case Str:
+		if x.Opq != nil {
+			return false
+		}
+		return x.Len() == 0
+	case *sym.Term:
+		if x.IsConst() {
+			return x.Val == 0
+		}
+		return in.Path.Branch(in.Ctx.Eq(x, in.zero(t.Underlying()).(*sym.Term)))
+	case Slice:
+		if x.JSON != nil {
+			return false
+		}
+		return x.Len == 0
+	case *Map:
+		return in.mapLen(x) == 0
+	case *Value:
+		return x == nil
+	case Iface:
+		return x.T == nil
+	}
+	return false
+}
+
+// ---------- json.Unmarshal ----------
+
+type unmarshalState struct {
+	err *jsonErr
+}
+
+func (u *unmarshalState) fail(msg string) {
+	if u.err == nil {
+		u.err = &jsonErr{msg}
+	}
+}
+
+// jsonUnmarshalInto decodes n into the cell p of static type t (documented rules).
+func (in *Interp) jsonUnmarshalInto(u *unmarshalState, n *JNode, t types.Type, p *Value) {
+	c := in.Ctx
+	// Unmarshaler / special types
+	if isNamed(t, "encoding/json", "RawMessage") {
+		in.store(p, Slice{JSON: n})
+		return
+	}
+	if pt, ok := t.Underlying().(*types.Pointer); ok {
+		if n.Kind == JNull {
+			in.store(p, (*Value)(nil))
+			return
+		}
+		cur := in.load(p).(*Value)
+		if cur == nil {
+			cur = new(Value)
+			*cur = in.zero(pt.Elem())
+			in.store(p, cur)
+		}
+		in.jsonUnmarshalInto(u, n, pt.Elem(), cur)
+		return
+	}
+	if isNamed(t, "time", "Time") {
+		switch {
+		case n.Kind == JNull:
+		case n.Kind == JString && n.Flavor == flTime:
+			in.store(p, copyVal(n.Time))
+		case n.Kind == JString && n.Flavor == flPlain && n.S.IsConc():
+			tm, e := time.Parse(time.RFC3339, n.S.S)
+			if e != nil {
+				u.fail("parsing time: not RFC 3339")
+				return
+			}
+			if _, off := tm.Zone(); off != 0 {
+				in.unsupported("time literal with a zone offset")
+			}
+			in.store(p, Struct{in.Ctx.BV(64, uint64(tm.Nanosecond())), in.Ctx.BV(64, uint64(tm.Unix()+62135596800)), (*Value)(nil)})
+		case n.Kind == JString && n.Flavor == flPlain:
+			in.noteModel("RFC 3339 parsing of an arbitrary symbolic string: rejected (times reach the decoder only as time leaves)")
+			u.fail("parsing time: not RFC 3339")
+		case n.Kind == JString:
+			u.fail("parsing time: not RFC 3339")
+		default:
+			u.fail("Time.UnmarshalJSON: input is not a JSON string")
+		}
+		return
+	}
+	if _, isIface := t.Underlying().(*types.Interface); !isIface {
+		pms := in.P.Prog.MethodSets.MethodSet(types.NewPointer(t))
+		if sel := pms.Lookup(nil, "UnmarshalJSON"); sel != nil {
+			f := in.P.Prog.MethodValue(sel)
+			r := in.callFn(nil, f, nil, []Value{p, Slice{JSON: n}}, nil)
+			if e := r.(Iface); e.T != nil {
+				u.fail("UnmarshalJSON failed")
+			}
+			return
+		}
+	}
+	switch tt := t.Underlying().(type) {
+	case *types.Interface:
+		if tt.NumMethods() != 0 {
+			if n.Kind != JNull {
+				u.fail("json: cannot unmarshal into non-empty interface")
+			}
+			return
+		}
+		in.store(p, in.jsonToAny(n))
+	case *types.Basic:
+		if n.Kind == JNull {
+			return
+		}
+		if isString(tt) {
+			if n.Kind != JString {
+				u.fail("json: cannot unmarshal into Go value of type string")
+				return
+			}
+			switch n.Flavor {
+			case flPlain:
+				in.store(p, n.S)
+			default:
+				in.store(p, Str{Opq: &Opaque{What: "text of a time/bytes JSON string", NotNilWord: true}})
+			}
+			return
+		}
+		if w, signed, ok := intInfo(tt); ok {
+			if w == 0 {
+				if n.Kind != JBool {
+					u.fail("json: cannot unmarshal into Go value of type bool")
+					return
+				}
+				in.store(p, n.B)
+				return
+			}
+			switch n.Kind {
+			case JNumVal:
+				r := in.jsonParseNumber(n, w, signed).(Tuple)
+				if r[1].(Iface).T != nil {
+					u.fail("json: cannot unmarshal number into Go value (range)")
+					return
+				}
+				in.store(p, c.Extract(term(r[0]), 0, w))
+			case JNumText:
+				if !n.Text.IsConc() {
+					in.unsupported("decoding a symbolic number literal into an integer")
+				}
+				var okc bool
+				var bits uint64
+				if signed {
+					x, e := strconv.ParseInt(n.Text.S, 10, w)
+					okc, bits = e == nil, uint64(x)
+				} else {
+					x, e := strconv.ParseUint(n.Text.S, 10, w)
+					okc, bits = e == nil, x
+				}
+				if !okc {
+					u.fail("json: cannot unmarshal number into Go value")
+					return
+				}
+				in.store(p, c.BV(w, bits))
+			default:
+				u.fail("json: cannot unmarshal into Go value of integer type")
+			}
+			return
+		}
+		if isFloat(tt) {
+			in.unsupported("decoding into a float")
+		}
+	case *types.Slice:
+		if b, ok := tt.Elem().Underlying().(*types.Basic); ok && b.Kind() == types.Uint8 {
+			switch {
+			case n.Kind == JNull:
+				in.store(p, Slice{})
+			case n.Kind == JString && n.Flavor == flBytes:
+				back := make([]Value, n.Bytes.Len)
+				copy(back, n.Bytes.Back[:n.Bytes.Len])
+				in.store(p, Slice{Back: back, Len: len(back)})
+			case n.Kind == JString && n.Flavor == flPlain && n.S.IsConc():
+				var out []byte
+				if e := json.Unmarshal([]byte(strconv.Quote(n.S.S)), &out); e != nil {
+					u.fail("illegal base64 data")
+					return
+				}
+				back := make([]Value, len(out))
+				for i := range out {
+					back[i] = c.BV(8, uint64(out[i]))
+				}
+				in.store(p, Slice{Back: back, Len: len(back)})
+			case n.Kind == JString && n.Flavor == flPlain:
+				in.noteModel("base64 decoding of an arbitrary symbolic string: rejected (byte strings reach the decoder only as bytes leaves)")
+				u.fail("illegal base64 data")
+			case n.Kind == JString:
+				u.fail("illegal base64 data")
+			case n.Kind == JArray:
+				// an array of numbers decodes element-wise into a []uint8
+				back := make([]Value, len(n.Elems))
+				for i := range back {
+					back[i] = in.zero(tt.Elem())
+				}
+				for i, e := range n.Elems {
+					in.jsonUnmarshalInto(u, e, tt.Elem(), &back[i])
+				}
+				in.store(p, Slice{Back: back, Len: len(back)})
+			default:
+				u.fail("json: cannot unmarshal into Go value of type []uint8")
+			}
+			return
+		}
+		switch n.Kind {
+		case JNull:
+			in.store(p, Slice{})
+		case JArray:
+			back := make([]Value, len(n.Elems))
+			for i := range back {
+				back[i] = in.zero(tt.Elem())
+			}
+			for i, e := range n.Elems {
+				in.jsonUnmarshalInto(u, e, tt.Elem(), &back[i])
+			}
+			in.store(p, Slice{Back: back, Len: len(back)})
+		default:
+			u.fail("json: cannot unmarshal into Go value of slice type")
+		}
+	case *types.Map:
+		switch n.Kind {
+		case JNull:
+			in.store(p, (*Map)(nil))
+		case JObject:
+			if !isString(tt.Key()) {
+				in.unsupported("decoding into a map with non-string keys")
+			}
+			m, _ := in.load(p).(*Map)
+			if m == nil {
+				in.mapSeq++
+				m = &Map{KeyT: tt.Key(), ValT: tt.Elem(), ID: in.mapSeq}
+				in.store(p, m)
+			}
+			for i, k := range n.Keys {
+				cell := new(Value)
+				*cell = in.zero(tt.Elem())
+				in.jsonUnmarshalInto(u, n.Vals[i], tt.Elem(), cell)
+				in.mapUpdate(m, k, *cell)
+			}
+		default:
+			u.fail("json: cannot unmarshal into Go value of map type")
+		}
+	case *types.Struct:
+		switch n.Kind {
+		case JNull:
+		case JObject:
+			sp := (*p).(Struct)
+			for i, k := range n.Keys {
+				fi := in.jsonFindField(tt, k)
+				if fi < 0 {
+					continue
+				}
+				in.jsonUnmarshalInto(u, n.Vals[i], tt.Field(fi).Type(), &sp[fi])
+			}
+		default:
+			u.fail("json: cannot unmarshal into Go struct")
+		}
+	default:
+		in.unsupported("json.Unmarshal into %s", t)
+	}
+}
+
+// jsonFindField: exact match first, then case-insensitive (ASCII folding).
+func (in *Interp) jsonFindField(tt *types.Struct, key Str) int {
+	type cand struct {
+		idx  int
+		name string
+	}
+	var cands []cand
+	for i := 0; i < tt.NumFields(); i++ {
+		f := tt.Field(i)
+		if !f.Exported() {
+			continue
+		}
+		name, _, skip := jsonFieldName(f, tt.Tag(i))
+		if skip {
+			continue
+		}
+		cands = append(cands, cand{i, name})
+	}
+	if key.IsConc() {
+		for _, cd := range cands {
+			if cd.name == key.S {
+				return cd.idx
+			}
+		}
+		for _, cd := range cands {
+			if strings.EqualFold(cd.name, key.S) {
+				return cd.idx
+			}
+		}
+		return -1
+	}
+	if key.Opq != nil {
+		in.unsupported("opaque JSON member name")
+	}
+	// symbolic key: exact or case-folded match decided per candidate of equal length
+	for pass := 0; pass < 2; pass++ {
+		for _, cd := range cands {
+			if len(cd.name) != key.Len() {
+				continue
+			}
+			eq := in.Ctx.T
+			for j := 0; j < len(cd.name); j++ {
+				b := in.strAt(key, j)
+				ch := cd.name[j]
+				m := in.Ctx.Eq(b, in.Ctx.BV(8, uint64(ch)))
+				if pass == 1 {
+					lc, uc := ch, ch
+					if ch >= 'a' && ch <= 'z' {
+						uc = ch - 32
+					} else if ch >= 'A' && ch <= 'Z' {
+						lc = ch + 32
+					}
+					m = in.Ctx.Or(in.Ctx.Eq(b, in.Ctx.BV(8, uint64(lc))), in.Ctx.Eq(b, in.Ctx.BV(8, uint64(uc))))
+				}
+				eq = in.Ctx.And(eq, m)
+			}
+			if in.Path.Branch(eq) {
+				return cd.idx
+			}
+		}
+	}
+	return -1
+}
+
+func (in *Interp) anyType() types.Type { return types.NewInterfaceType(nil, nil) }
+
+func (in *Interp) jsonToAny(n *JNode) Value {
+	switch n.Kind {
+	case JNull:
+		return Iface{}
+	case JBool:
+		return Iface{T: types.Typ[types.Bool], V: n.B}
+	case JNumText, JNumVal:
+		return Iface{T: types.Typ[types.Float64], V: JNumBox{n}}
+	case JString:
+		if n.Flavor != flPlain {
+			return Iface{T: types.Typ[types.String], V: Str{Opq: &Opaque{What: "text of a time/bytes JSON string", NotNilWord: true}}}
+		}
+		return Iface{T: types.Typ[types.String], V: n.S}
+	case JArray:
+		back := make([]Value, len(n.Elems))
+		for i, e := range n.Elems {
+			back[i] = in.jsonToAny(e)
+		}
+		return Iface{T: types.NewSlice(in.anyType()), V: Slice{Back: back, Len: len(back)}}
+	case JObject:
+		in.mapSeq++
+		m := &Map{KeyT: types.Typ[types.String], ValT: in.anyType(), ID: in.mapSeq}
+		for i, k := range n.Keys {
+			in.mapUpdate(m, k, in.jsonToAny(n.Vals[i]))
+		}
+		return Iface{T: types.NewMap(types.Typ[types.String], in.anyType()), V: m}
+	}
+	in.unsupported("jsonToAny of invalid JSON")
+	return nil
+}
+
+func init() {
+	intrinsics["encoding/json.Marshal"] = func(in *Interp, fr *frame, call *ssa.CallCommon, args []Value) Value {
+		in.noteModel("encoding/json.Marshal (abstract JSON documents)")
+		iv := args[0].(Iface)
+		var n *JNode
+		var err *jsonErr
+		if iv.T == nil {
+			n = &JNode{Kind: JNull}
+		} else {
+			n, err = in.jsonMarshal(iv.T, iv.V)
+		}
+		if err != nil {
+			return Tuple{Slice{}, in.newError(Str{S: err.msg})}
+		}
+		return Tuple{Slice{JSON: n}, Iface{}}
+	}
+	intrinsics["encoding/json.Unmarshal"] = func(in *Interp, fr *frame, call *ssa.CallCommon, args []Value) Value {
+		in.noteModel("encoding/json.Unmarshal (abstract JSON documents)")
+		data := args[0].(Slice)
+		target := args[1].(Iface)
+		if data.JSON == nil && data.Len == 0 {
+			return in.newError(Str{S: "unexpected end of JSON input"})
+		}
+		n := in.jsonOfBytes(data)
+		if n.Kind == JInvalid {
+			return in.newError(Str{S: "invalid character"})
+		}
+		if target.T == nil {
+			return in.newError(Str{S: "json: Unmarshal(nil)"})
+		}
+		pt, ok := target.T.Underlying().(*types.Pointer)
+		if !ok {
+			return in.newError(Str{S: "json: Unmarshal(non-pointer)"})
+		}
+		p := target.V.(*Value)
+		if p == nil {
+			return in.newError(Str{S: "json: Unmarshal(nil pointer)"})
+		}
+		u := &unmarshalState{}
+		in.jsonUnmarshalInto(u, n, pt.Elem(), p)
+		if u.err != nil {
+			return in.newError(Str{S: u.err.msg})
+		}
+		return Iface{}
+	}
+}
